@@ -18,7 +18,16 @@ FROM FILES (second stage, `Props/C12Composed.lean`): the theorems below start fr
 files, a root file and any path resolver — runtime document = `[X] ++` the reference closure over the REFERENCE import
 set (`Spec/Imports.lean`), the two outcomes when a reachable fragment is not brought in, and how a name clash between
 a local and an imported fragment behaves (the imported one shadows; the checker rejects).
-STILL CARRIED BY K/O ONLY: the text level (json_writer escaping, the `const … =` frame around the literal) and the
+TEXT LEVEL (third stage, `Props/C12Text.lean`): the theorems here are about the JSON TREE; what is emitted is the TEXT
+json-writer writes for it, embedded as an object literal behind `const <Name> = ` (JavaScript module, loaders) or
+`const <Name>: T = ` (`.graphql.ts`). `C12_text_*` lift the statements to that text with two reference readers written
+from the standards (`Spec/JsonText.lean`: RFC 8259 `JSON.parse`; the literal subset of ECMA-262 expressions): every string
+is read back (`json_string_roundtrip`), every tree is (`json_text_roundtrip`, `js_literal_roundtrip`), and text → JSON →
+`DocumentNode` gives `[X] ++ closure`, positions erased (`C12_text_level`, `C12_text_closure*`, `C12_text_from_files*`),
+also in place inside the module text (`C12_text_embedded_js/_ts`, `C12_text_module_js`).
+STILL CARRIED BY K/O ONLY: that the real printers write the characters the text model (`PrintMap.jsonText`, the statements
+of `Lemmas/PrintMapBodyFile.lean`) says — C06's call-by-call comparison and this property's tree comparison through
+serde_json; that an ECMAScript engine reads a literal as `Spec/JsonText.lean JsLit` transcribes ECMA-262 (ES2019+); the
 parser's reading of the source text (C07).
 -/
 namespace NitroVerif.C12
